@@ -10,6 +10,40 @@ import (
 )
 
 func (cr *concRun) analyse(out *ConcOutcome) {
+	cfg := &cr.cc.Cfg
+	if cfg.bounded() {
+		cr.probe["bounded"]++
+	}
+	if cfg.bounded() || cfg.withExpiry() {
+		cr.probe["maintenance-configured"]++
+	}
+	for _, ev := range cr.r.Events {
+		if ev.Atomic {
+			cr.probe["atomic-events"]++
+			cr.probe["atomic-events:"+ev.Cause.String()]++
+		}
+	}
+	if cr.auditNoCleanup != nil {
+		cr.probe[fmt.Sprintf("drain-status-at-quiescence:%d", cr.auditNoCleanup.DrainStatus)]++
+	}
+	own := map[[2]int]bool{}
+	for _, l := range cr.r.Loads {
+		own[[2]int{l.Task, l.OpIdx}] = true
+		cr.probe["loader-calls"]++
+	}
+	for _, h := range cr.hist {
+		if h.Done && h.Task >= 0 && h.Op.Kind == "load" && !own[[2]int{h.Task, h.Idx}] {
+			for _, l := range cr.r.Loads {
+				if l.Enter < h.Ret && (l.Exit == 0 || l.Exit > h.Call) {
+					for _, k := range l.Keys {
+						if k == h.Op.K {
+							cr.probe["load-waiters"]++
+						}
+					}
+				}
+			}
+		}
+	}
 	cr.checkLive()
 	cr.checkAudit()
 	cr.checkBoundAndViews()
@@ -21,6 +55,9 @@ func (cr *concRun) analyse(out *ConcOutcome) {
 	cr.countOverlaps(out)
 	if cr.opts.Lin {
 		cr.checkLin(out)
+	}
+	if Trace {
+		cr.dumpTimeline()
 	}
 }
 
@@ -409,9 +446,18 @@ func (cr *concRun) checkLoads() {
 					ws = cr.writersOf(k)
 					haveW = true
 				}
+				// a load is in flight from the moment its call was registered, which is no earlier than
+				// the invocation of the operation that started it; a write after either registration
+				// clears that call, after which both calls may run their loaders
+				start := a.Enter
+				for _, h := range cr.hist {
+					if (h.Op == a.Op || h.Op == b.Op) && h.Call < start {
+						start = h.Call
+					}
+				}
 				excused := false
 				for _, w := range ws {
-					if w.a <= b.Enter && w.b >= a.Enter {
+					if w.a <= b.Enter && w.b >= start {
 						excused = true
 						break
 					}
@@ -890,6 +936,27 @@ func (cr *concRun) checkLin(out *ConcOutcome) {
 			add(in, res, c2(h.Call), c2(h.Ret)+1)
 		}
 	}
+	// background reloads (refresh of a stale entry): their result is installed, or the entry removed
+	// on not-found, at some point between the loader's return and the end of the executor function
+	for _, l := range cr.r.Loads {
+		if !l.Reload || l.Bulk || l.Exit == 0 {
+			continue
+		}
+		end := l.InstallEnd
+		if end == 0 && l.TaskRef != nil && l.TaskRef.FinishSeq != 0 {
+			end = l.TaskRef.FinishSeq
+		}
+		if end == 0 {
+			end = ^uint64(0) >> 3
+		}
+		k := l.Keys[0]
+		switch l.Outcome {
+		case "val":
+			perKey[k] = append(perKey[k], porcupine.Operation{ClientId: 0, Input: linIn{kind: "install", v: l.Ret[k]}, Output: linOut{}, Call: c2(l.Exit), Return: c2(end) + 1})
+		case "notfound":
+			perKey[k] = append(perKey[k], porcupine.Operation{ClientId: 0, Input: linIn{kind: "uninstall"}, Output: linOut{}, Call: c2(l.Exit), Return: c2(end) + 1})
+		}
+	}
 	for _, ev := range cr.r.Events {
 		if ev.Atomic && (ev.Cause == otter.CauseOverflow || ev.Cause == otter.CauseExpiration) {
 			end := ev.End
@@ -931,4 +998,44 @@ func (cr *concRun) checkLin(out *ConcOutcome) {
 			cr.fail(P("C02", "C09", "C15"), "lin.illegal", k, "history of key %d is not linearizable against the sequential map:%s", k, s)
 		}
 	}
+}
+
+// dumpTimeline prints the merged history of a concurrent run (replay debugging, VERIF_TRACE=1).
+func (cr *concRun) dumpTimeline() {
+	type line struct {
+		at uint64
+		s  string
+	}
+	var ls []line
+	for _, h := range cr.hist {
+		ls = append(ls, line{h.Call, fmt.Sprintf("c%d#%d CALL %s", h.Task, h.Idx, h.Op)})
+		if h.Done {
+			ls = append(ls, line{h.Ret, fmt.Sprintf("c%d#%d RET  %s -> v=%d ok=%v err=%q map=%v refresh=%v calls=%d saw=%d/%v", h.Task, h.Idx, h.Op.Kind, h.Res.V, h.Res.Ok, h.Res.Err, h.Res.Map, h.Res.Refresh, h.Res.CompCalls, h.Res.CompSaw, h.Res.CompFound)})
+		}
+	}
+	for _, ev := range cr.r.Events {
+		ls = append(ls, line{ev.Seq, fmt.Sprintf("   EVENT atomic=%v k=%d v=%d cause=%s ctx=task%d#%d(%s) end=%d", ev.Atomic, ev.K, ev.V, ev.Cause, ev.Task, ev.OpIdx, ev.OpKind, ev.End)})
+	}
+	for _, l := range cr.r.Loads {
+		tn := ""
+		if l.TaskRef != nil {
+			tn = l.TaskRef.Name
+		}
+		ls = append(ls, line{l.Enter, fmt.Sprintf("   LOADER enter keys=%v reload=%v olds=%v ctx=task%d#%d on %s plan=%+v", l.Keys, l.Reload, l.Olds, l.Task, l.OpIdx, tn, l.Plan)})
+		if l.Exit != 0 {
+			ls = append(ls, line{l.Exit, fmt.Sprintf("   LOADER exit  keys=%v ret=%v outcome=%s installEnd=%d", l.Keys, l.Ret, l.Outcome, l.InstallEnd)})
+		}
+	}
+	sort.Slice(ls, func(i, j int) bool { return ls[i].at < ls[j].at })
+	for _, l := range ls {
+		fmt.Printf("%5d %s\n", l.at, l.s)
+	}
+	fmt.Printf("final all=%v\n", cr.finalAll)
+	if cr.auditNoCleanup != nil {
+		fmt.Printf("audit(no cleanup): %+v\n", *cr.auditNoCleanup)
+	}
+	if cr.auditFinal != nil {
+		fmt.Printf("audit(final): %+v\n", *cr.auditFinal)
+	}
+	fmt.Printf("live at end: %v\n", cr.liveAtEnd)
 }
